@@ -11,6 +11,8 @@ def install(plugins):
     CURRENT["plugins"] = plugins
     CURRENT["log"] = []
     CURRENT["made"] = {}
+    CURRENT["raises"] = None
+    CURRENT["raised"] = None
 
 
 def __getattr__(name):
@@ -22,7 +24,13 @@ def __getattr__(name):
         return CURRENT["made"][name]
 
     def digest(content):
-        CURRENT["log"].append((spec["section"], content))
+        # one callable may be installed under two section names: the content tells which of them is being digested
+        section = content["which"] if isinstance(content, dict) and "which" in content else spec["section"]
+        CURRENT["log"].append((section, content))
+        boom = CURRENT.get("raises")
+        if boom and boom["section"] == section:
+            CURRENT["raised"] = {"KeyError": KeyError, "LookupError": LookupError, "ValueError": ValueError, "TypeError": TypeError}[boom["kind"]]("option")
+            raise CURRENT["raised"]
         return spec["result"]
 
     digest.__name__ = name
